@@ -102,7 +102,9 @@ def main(argv):
             raise AnalysisBroken("no instance floors frozen for %s (tables/floors.json)" % pid)
         floor_msgs = []
         for rule, n in fl.items():
-            if counts.get(rule, 0) < n:
+            # the floor guards against a rule going vacuous, not against single sites moving: tolerate a small shortfall
+            slack = (n // 10) if n >= 20 else (1 if n >= 5 else 0)
+            if counts.get(rule, 0) < n - slack:
                 floor_msgs.append("%s: rule %s matched %d instances, below the confirmed floor %d — anchors moved or the rule lost its sites"
                                   % (pid, rule, counts.get(rule, 0), n))
         # a definite violation is reported as such; a floor shortfall alone is analysis-broken
